@@ -80,12 +80,22 @@ def spell(rng, a, b, unit, pns):
     return dec(da / NS[u]), u, dec(db / NS[u]), ""
 
 
-def render(rng, f, unit, pns, record, unless=False):
+def render(rng, f, unit, pns, record, unless=False, consts=None):
     """Spec text with every interval spelled; `record` collects (a,b,spelling).  `unless`: the bounded until operators are
     written `unless` (sugar for `always[0,b] p or p until[a,b] q`: the parser derives a second interval from the written one)."""
     def bound_pair(node):
         sp = spell(rng, node[2], node[3], unit, pns)
         record.append((node[2], node[3], sp))
+        if consts is not None and rng.random() < 0.25:
+            # one of the two numerals is a declared constant (`const float K0 = 0.3` ... `[0:K0 s]`): same value, same unit rule
+            bt, bu, et, eu = sp
+            nm = "K%d" % len(consts)
+            if rng.random() < 0.5:
+                consts.append((nm, "float" if "." in bt else "int", bt))
+                sp = (nm + (" " if bu else ""), bu, et, eu)
+            else:
+                consts.append((nm, "float" if "." in et else "int", et))
+                sp = (bt, bu, nm + (" " if eu else ""), eu)
         return sp
 
     def go(x):
@@ -113,11 +123,11 @@ def render(rng, f, unit, pns, record, unless=False):
     return "out = " + go(f)
 
 
-def run_monitor(monitor, text, vs, data, n, unit, period, punit):
+def run_monitor(monitor, text, vs, data, n, unit, period, punit, consts=()):
     per = int(period) if period.denominator == 1 else float(period)
     # the baseline rendering of the same durations evaluates in milliseconds: a rendering that does not
     # come back within 8 s (e.g. a bound blown up by a wrong unit) is reported as an outcome, not a harness error
-    kw = dict(unit=unit, sampling=(per, punit, 0.1), limit=8.0, timeout_is_outcome=True)
+    kw = dict(unit=unit, sampling=(per, punit, 0.1), limit=8.0, timeout_is_outcome=True, consts=list(consts))
     if monitor == "offd":
         o = impl.eval_offline_discrete(text, vs, data, n, **kw)
         return o if o[0] != "ok" else ("ok", [p[1] for p in o[1]])
@@ -169,14 +179,16 @@ def check_case(ctx, case, rng):
     for (unit, period, punit) in configs(rng):
         pns = period * NS[punit]
         for _ in range(3):
-            rec = []
-            text = render(rng, f, unit, pns, rec, unl)
+            rec, consts = [], []
+            text = render(rng, f, unit, pns, rec, unl, consts)
             ctx.evaluations += 1
             ctx.count("monitor:" + mon)
             if unl:
                 ctx.count("unless-sugar")
-            out = run_monitor(mon, text, vs, data, n, unit, period, punit)
-            rep2 = dict(rep, spec=text, unit=unit, period=str(period), period_unit=punit, impl=out)
+            if consts:
+                ctx.count("constant-bounds")
+            out = run_monitor(mon, text, vs, data, n, unit, period, punit, consts)
+            rep2 = dict(rep, spec=text, unit=unit, period=str(period), period_unit=punit, impl=out, consts=[list(c) for c in consts])
             if out[0] != "ok":
                 return Violation("%s monitor: rendering with the same durations raised %r (unit=%s, period=%s %s): %s"
                                  % (mon, out[1:], unit, period, punit, text), rep2, stream="units"), diff
@@ -310,7 +322,8 @@ def replay(ctx, obj):
     data = {k: [float(x) for x in v] for k, v in obj["data"].items()}
     vs = sorted(data)
     base = run_monitor(obj["monitor"], obj["baseline_spec"], vs, data, obj["n"], "s", Fraction(1), "s")
-    out = run_monitor(obj["monitor"], obj["spec"], vs, data, obj["n"], obj["unit"], Fraction(obj["period"]), obj["period_unit"])
+    out = run_monitor(obj["monitor"], obj["spec"], vs, data, obj["n"], obj["unit"], Fraction(obj["period"]), obj["period_unit"],
+                      [tuple(c) for c in obj.get("consts") or []])
     if "non-multiple" in obj.get("what", "") or (obj.get("impl") and obj["impl"][0] == "ok" and "not a multiple" in obj.get("what", "")):
         return (out[0] == "rtamt"), "non-multiple bound: outcome %r" % (out[:2],)
     ok = base[0] == "ok" and out[0] == "ok" and same_vals(base[1], out[1])
